@@ -47,6 +47,79 @@ impl vstd::std_specs::ops::DivSpecImpl<R32> for R32 {
     open spec fn div_spec(self, rhs: R32) -> R32 { mk(rdiv(val(self), val(rhs))) }
 }
 impl std::ops::Div<R32> for R32 { type Output = R32; #[verifier::external_body] fn div(self, rhs: R32) -> R32 { R32 { v: self.v / rhs.v } } }
+// reference operand variants (f32 has them; the code uses `x * ratio` with `ratio: &f32`)
+impl<'a> vstd::std_specs::ops::AddSpecImpl<&'a R32> for R32 {
+    open spec fn obeys_add_spec() -> bool { true }
+    open spec fn add_req(self, rhs: &'a R32) -> bool { true }
+    open spec fn add_spec(self, rhs: &'a R32) -> R32 { mk(val(self) + val(*rhs)) }
+}
+impl<'a> std::ops::Add<&'a R32> for R32 { type Output = R32; #[verifier::external_body] fn add(self, rhs: &'a R32) -> R32 { unimplemented!() } }
+impl<'a> vstd::std_specs::ops::AddSpecImpl<R32> for &'a R32 {
+    open spec fn obeys_add_spec() -> bool { true }
+    open spec fn add_req(self, rhs: R32) -> bool { true }
+    open spec fn add_spec(self, rhs: R32) -> R32 { mk(val(*self) + val(rhs)) }
+}
+impl<'a> std::ops::Add<R32> for &'a R32 { type Output = R32; #[verifier::external_body] fn add(self, rhs: R32) -> R32 { unimplemented!() } }
+impl<'a, 'b> vstd::std_specs::ops::AddSpecImpl<&'b R32> for &'a R32 {
+    open spec fn obeys_add_spec() -> bool { true }
+    open spec fn add_req(self, rhs: &'b R32) -> bool { true }
+    open spec fn add_spec(self, rhs: &'b R32) -> R32 { mk(val(*self) + val(*rhs)) }
+}
+impl<'a, 'b> std::ops::Add<&'b R32> for &'a R32 { type Output = R32; #[verifier::external_body] fn add(self, rhs: &'b R32) -> R32 { unimplemented!() } }
+impl<'a> vstd::std_specs::ops::SubSpecImpl<&'a R32> for R32 {
+    open spec fn obeys_sub_spec() -> bool { true }
+    open spec fn sub_req(self, rhs: &'a R32) -> bool { true }
+    open spec fn sub_spec(self, rhs: &'a R32) -> R32 { mk(val(self) - val(*rhs)) }
+}
+impl<'a> std::ops::Sub<&'a R32> for R32 { type Output = R32; #[verifier::external_body] fn sub(self, rhs: &'a R32) -> R32 { unimplemented!() } }
+impl<'a> vstd::std_specs::ops::SubSpecImpl<R32> for &'a R32 {
+    open spec fn obeys_sub_spec() -> bool { true }
+    open spec fn sub_req(self, rhs: R32) -> bool { true }
+    open spec fn sub_spec(self, rhs: R32) -> R32 { mk(val(*self) - val(rhs)) }
+}
+impl<'a> std::ops::Sub<R32> for &'a R32 { type Output = R32; #[verifier::external_body] fn sub(self, rhs: R32) -> R32 { unimplemented!() } }
+impl<'a, 'b> vstd::std_specs::ops::SubSpecImpl<&'b R32> for &'a R32 {
+    open spec fn obeys_sub_spec() -> bool { true }
+    open spec fn sub_req(self, rhs: &'b R32) -> bool { true }
+    open spec fn sub_spec(self, rhs: &'b R32) -> R32 { mk(val(*self) - val(*rhs)) }
+}
+impl<'a, 'b> std::ops::Sub<&'b R32> for &'a R32 { type Output = R32; #[verifier::external_body] fn sub(self, rhs: &'b R32) -> R32 { unimplemented!() } }
+impl<'a> vstd::std_specs::ops::MulSpecImpl<&'a R32> for R32 {
+    open spec fn obeys_mul_spec() -> bool { true }
+    open spec fn mul_req(self, rhs: &'a R32) -> bool { true }
+    open spec fn mul_spec(self, rhs: &'a R32) -> R32 { mk(val(self) * val(*rhs)) }
+}
+impl<'a> std::ops::Mul<&'a R32> for R32 { type Output = R32; #[verifier::external_body] fn mul(self, rhs: &'a R32) -> R32 { unimplemented!() } }
+impl<'a> vstd::std_specs::ops::MulSpecImpl<R32> for &'a R32 {
+    open spec fn obeys_mul_spec() -> bool { true }
+    open spec fn mul_req(self, rhs: R32) -> bool { true }
+    open spec fn mul_spec(self, rhs: R32) -> R32 { mk(val(*self) * val(rhs)) }
+}
+impl<'a> std::ops::Mul<R32> for &'a R32 { type Output = R32; #[verifier::external_body] fn mul(self, rhs: R32) -> R32 { unimplemented!() } }
+impl<'a, 'b> vstd::std_specs::ops::MulSpecImpl<&'b R32> for &'a R32 {
+    open spec fn obeys_mul_spec() -> bool { true }
+    open spec fn mul_req(self, rhs: &'b R32) -> bool { true }
+    open spec fn mul_spec(self, rhs: &'b R32) -> R32 { mk(val(*self) * val(*rhs)) }
+}
+impl<'a, 'b> std::ops::Mul<&'b R32> for &'a R32 { type Output = R32; #[verifier::external_body] fn mul(self, rhs: &'b R32) -> R32 { unimplemented!() } }
+impl<'a> vstd::std_specs::ops::DivSpecImpl<&'a R32> for R32 {
+    open spec fn obeys_div_spec() -> bool { true }
+    open spec fn div_req(self, rhs: &'a R32) -> bool { true }
+    open spec fn div_spec(self, rhs: &'a R32) -> R32 { mk(rdiv(val(self), val(*rhs))) }
+}
+impl<'a> std::ops::Div<&'a R32> for R32 { type Output = R32; #[verifier::external_body] fn div(self, rhs: &'a R32) -> R32 { unimplemented!() } }
+impl<'a> vstd::std_specs::ops::DivSpecImpl<R32> for &'a R32 {
+    open spec fn obeys_div_spec() -> bool { true }
+    open spec fn div_req(self, rhs: R32) -> bool { true }
+    open spec fn div_spec(self, rhs: R32) -> R32 { mk(rdiv(val(*self), val(rhs))) }
+}
+impl<'a> std::ops::Div<R32> for &'a R32 { type Output = R32; #[verifier::external_body] fn div(self, rhs: R32) -> R32 { unimplemented!() } }
+impl<'a, 'b> vstd::std_specs::ops::DivSpecImpl<&'b R32> for &'a R32 {
+    open spec fn obeys_div_spec() -> bool { true }
+    open spec fn div_req(self, rhs: &'b R32) -> bool { true }
+    open spec fn div_spec(self, rhs: &'b R32) -> R32 { mk(rdiv(val(*self), val(*rhs))) }
+}
+impl<'a, 'b> std::ops::Div<&'b R32> for &'a R32 { type Output = R32; #[verifier::external_body] fn div(self, rhs: &'b R32) -> R32 { unimplemented!() } }
 impl vstd::std_specs::ops::NegSpecImpl for R32 {
     open spec fn obeys_neg_spec() -> bool { true }
     open spec fn neg_req(self) -> bool { true }
